@@ -686,7 +686,11 @@ func (rdb *RDB) get(key []byte, ctx *Context) (data []byte, err error) {
 	cachedEntry, ok := ctx.cache[string(key)]
 
 	if ok {
-		data = cachedEntry.data
+		// an entry left by a closest-key search that ended on another key
+		// means that this key is absent; its data must not be served for it
+		if bytes.Equal(cachedEntry.key, key) {
+			data = cachedEntry.data
+		}
 	} else {
 		data, err = rdb.db.Get(rdb.readOptions, key)
 		if err != nil {
